@@ -33,7 +33,7 @@ func formatFuncs(c *Ctx, extra ...string) []*ssa.Function {
 }
 
 func rulesC07(c *Ctx, r *Report) {
-	r.explain("Decides, for every fault offset at once (the offset only selects which dynamic instance of a read fails): (B2) in every function of the five codec packages, no error that may come from the underlying stream (bufio/csv/io reads, Scanner.Err, aio.Open, module functions that return such an error, pass-through error variables of range-over-func loops) can be in class 'other than nil/EOF' and unreported — not returned, yielded, wrapped into a returned error or panicked — at a return or when the same read is executed again; (B4) data read together with such an error is used only where the error's class excludes 'other' (no record from a truncated read), and a return whose error may be non-nil carries a nil record; (SC1) after Scan() returns false, Err() of the same scanner is consulted on every path to an exit; (YD2/YD3) after a callback call carrying a stream error no further callback call is reachable — the iteration ends after finitely many items even if the reader keeps failing; (B1) in every Write(w io.Writer) method every call that may return an error (writes to w, and anything else) has its error returned on every path, including deferred calls. Not decided: equality of the delivered records with the leading records of the fault-free decode; the Scanner case of B4 (a Scanner hands out the truncated last line before reporting the error — fastq survives through its length check); 'returns nil when everything was accepted'. Added rules: errors.Is(err, io.EOF) keeps class 'other' on its true edge; (F4L/REJECT) fastq's layout guards, which are what keeps a truncated last line out of a record. (W-ERR) for the five Write methods: every error returned is nil, the error of a call that was handed the writer (helpers of the package are followed with their writer parameter; module functions that never saw the writer are judged the same way), or a documented refusal (BED: N outside 3..12) — no sentinel such as io.ErrShortWrite, no constructed error elsewhere: Write returns nil when the writer accepted everything.")
+	r.explain("Decides, for every fault offset at once (the offset only selects which dynamic instance of a read fails): (B2) in every function of the five codec packages, no error that may come from the underlying stream (bufio/csv/io reads, Scanner.Err, aio.Open, module functions that return such an error, pass-through error variables of range-over-func loops) can be in class 'other than nil/EOF' and unreported — not returned, yielded, wrapped into a returned error or panicked — at a return or when the same read is executed again; (B4) data read together with such an error is used only where the error's class excludes 'other' (no record from a truncated read), and a return whose error may be non-nil carries a nil record; (SC1) after Scan() returns false, Err() of the same scanner is consulted on every path to an exit; (YD2/YD3) after a callback call carrying a stream error no further callback call is reachable — the iteration ends after finitely many items even if the reader keeps failing; (B1) in every Write(w io.Writer) method every call that may return an error (writes to w, and anything else) has its error returned on every path, including deferred calls. Not decided: equality of the delivered records with the leading records of the fault-free decode; the Scanner case of B4 (a Scanner hands out the truncated last line before reporting the error — fastq survives through its length check); 'returns nil when everything was accepted'. Added rules: errors.Is(err, io.EOF) keeps class 'other' on its true edge; (F4L/REJECT) fastq's layout guards, which are what keeps a truncated last line out of a record. (W-ERR) for the five Write methods: every error returned is nil, the error of a call that was handed the writer (helpers of the package are followed with their writer parameter; module functions that never saw the writer are judged the same way), or a documented refusal (BED: N outside 3..12) — no sentinel such as io.ErrShortWrite, no constructed error elsewhere: Write returns nil when the writer accepted everything. (SC-WHO) bufio.NewScanner is called only in fastq and smtext, whose decoders cannot deliver a record built from the unfinished line a Scanner hands out when the stream fails; (B0-PASS) an error item of the inner iterator is forwarded by the sam Reader layers.")
 	r.assume("bufio, csv and Scanner report the first error of the underlying reader through the calls in the source table; UnreadByte directly after a successful ReadByte cannot fail; bytes.Buffer and strings.Builder never fail; Close of a file opened for reading is not a data error")
 	funcs := withReachedDeps(c, formatFuncs(c))
 	e := &fdEngine{c: c, mode: fdStream}
